@@ -12,7 +12,7 @@ CHECK = dict(
              "real choice). Engine 1 executes it under a generated schedule with exactly one goroutine running between pqueue's hook points (0-200 generated "
              "choices, then run-until-blocked), engine 2 on free goroutines (GOMAXPROCS 1/2/4/16, 10 executions per case), engine 3 runs 2-8 concurrent "
              "client calls - RegClient.BlobCopy, BlobPut from seekable / unseekable / failing-seek / streamed sources, BlobGet read to the end / closed "
-             "early / closed by another goroutine, BlobHead, ManifestGet/Head/Put, TagList, ReferrerList - against 1-3 model registries (reqConcurrent "
+             "early / closed by another goroutine, BlobHead, ManifestGet/Head/Put, TagList, ReferrerList, Close of a target layout while copies into it run - against 1-3 model registries (reqConcurrent "
              "-1/0/1/2/3, mirrors) and an OCI layout, with 0-4 generated faults (status 5xx/429/408/4xx, reset before/after, truncated bodies), some calls "
              "cancelled before or at a request; engine 5 runs 2-6 ocidir.BlobPut writers (gated source readers: the source being asked for data means the writer holds the slot of its path) on 1-2 layout paths with WithThrottle 1/2/3 or the default, WithGC on/off, under a generated controller script of start / Close(path) / finish / cancel actions; oracle: writers inside the throttled section of one path <= limit at every entry, every writer returns, `limit` fresh writers get in afterwards; engine 4 runs `regsync once` (in-package, NewRootCmd) with generated configs: 1-4 image/repository steps, "
              "parallel 0-3, ratelimit.min per entry or in defaults with a source whose manifest HEADs report RateLimit-Remaining above/below the minimum "
